@@ -12,7 +12,6 @@ def jBool (b : Bool) : String := if b then "true" else "false"
 def jExB : Except DErr Bool → String
   | .ok b => jBool b
   | .error .value => "\"ValueError\""
-  | .error .type => "\"TypeError\""
 
 def cmdInt10 : List String → String
   | [s] => jOptInt (int10 (parseCps s))
@@ -50,7 +49,6 @@ def withDec (gn dn : String) (k : Dec → String) : String :=
 def jExVal : Except DErr Val → String
   | .ok v => jVal v
   | .error .value => "{\"err\":\"ValueError\"}"
-  | .error .type => "{\"err\":\"TypeError\"}"
 
 def cmdDecode : List String → String
   | [gn, dn, s] => withDec gn dn fun d => jExVal (decodeSimple d (parseCps s))
@@ -75,10 +73,10 @@ def cmdTokPred : List String → String
       "\"decimal\":" ++ jBool (Tok.isDecimal t),
       "\"nondecimal\":" ++ jBool (Tok.isNonDecimal d t),
       "\"numeric\":" ++ jBool (Tok.isNumeric d t),
-      "\"datetime\":" ++ jExB (Tok.isDatetime d t),
-      "\"unquoted\":" ++ jExB (Tok.isUnquotedString d t),
-      "\"parameter\":" ++ jExB (Tok.isParameterName d t),
-      "\"simple\":" ++ jExB (Tok.isSimpleValue d t)] ++ "}"
+      "\"datetime\":" ++ jBool (Tok.isDatetime d t),
+      "\"unquoted\":" ++ jBool (Tok.isUnquotedString d t),
+      "\"parameter\":" ++ jBool (Tok.isParameterName d t),
+      "\"simple\":" ++ jBool (Tok.isSimpleValue d t)] ++ "}"
   | _ => "bad-op"
 
 def cmdLex : List String → String
@@ -87,7 +85,6 @@ def cmdLex : List String → String
     let (toks, tail) := lexAll d.g d doc
     let tl := match tail with
       | .eof => "\"eof\""
-      | .typeerr => "\"TypeError\""
       | .lexerr p => jPErr doc (.lexer p)
     "{\"tokens\":[" ++ ",".intercalate (toks.map fun t => s!"[{jCps t.text},{t.pos},{t.last}]") ++
       "],\"tail\":" ++ tl ++ "}"
